@@ -18,7 +18,7 @@ ASSUMPTIONS = [
     'histories are interpreted from generated op lists with indices taken modulo the current slot counts (construction, not rejection)',
 ]
 
-OPS = ['create', 'create', 'dup', 'pickle', 'unpickle', 'to_helper', 'transit_to_helper', 'helper_drop', 'helper_back', 'helper_pickle_back', 'store', 'store', 'unstore', 'delete', 'delete', 'managed_return', 'process_arg', 'helper_exit']
+OPS = ['create', 'create', 'managed_same', 'dup', 'pickle', 'unpickle', 'to_helper', 'transit_to_helper', 'helper_drop', 'helper_back', 'helper_pickle_back', 'store', 'store', 'unstore', 'delete', 'delete', 'managed_return', 'process_arg', 'helper_exit']
 KINDS = ['list', 'dict', 'Value', 'MemoryBlock', 'VCounter']
 
 
@@ -272,6 +272,19 @@ def _run(spec):
                 model.new(p._id, 'list')
                 main.append([p, p._id, 'list'])
                 nested += 1
+        elif op == 'managed_same' and main:
+            cs = [m for m in main if m[2] == 'VCounter']
+            if cs:
+                p = cs[a % len(cs)][0].shared_list()
+                if p._id in model.objs:
+                    model.inc(p._id)
+                else:
+                    model.new(p._id, 'list')
+                main.append([p, p._id, 'list'])
+                nested += 1
+            else:
+                trace[-1].append('skipped')
+                continue
         elif op == 'process_arg' and main:
             p, oid, kind = main[a % len(main)]
             pa, pb = r.mmp.MP_SPAWN_CTX.Pipe()
